@@ -189,3 +189,37 @@ Proof.
     destruct (mem_at mems (c_sp c)); reflexivity.
   - destruct (mem_at mems (c_sp c)); reflexivity.
 Qed.
+
+(* ------------------------------------------------------------------ Display for CrashReason *)
+Lemma display_prefix_is_source f p v s :
+  In (f, p) GEN_DISPLAY -> f <> WindowsGeneral -> reason_string (f, [v]) = Some s -> exists n, s = p ++ n.
+Proof.
+  intros Hin Hne. unfold GEN_DISPLAY in Hin. cbn [In] in Hin.
+  repeat (destruct Hin as [Hin|Hin]; [inversion Hin; subst f p; clear Hin|]); try contradiction;
+    try (exfalso; apply Hne; reflexivity);
+    cbn [reason_string]; unfold prefixed; destruct (name_of _ v) as [n|]; intro H; inversion H; eexists; reflexivity.
+Qed.
+
+(* ------------------------------------------------------------------ /proc/self/status constants *)
+Fixpoint pid_of_lines_with (sep : Z) (key : list Z) (absent bad : Z) (lines : list (list Z)) : Z :=
+  match lines with
+  | [] => absent
+  | l :: rest =>
+      match split_once sep l with
+      | Some (k, v) => if zlist_eqb (strip_quotes k) key
+                       then match parse_u32 (strip_quotes v) with Some n => n | None => bad end
+                       else pid_of_lines_with sep key absent bad rest
+      | None => pid_of_lines_with sep key absent bad rest
+      end
+  end.
+Lemma status_consts_are_source lines :
+  pid_of_lines lines = pid_of_lines_with GEN_STATUS_SEP GEN_STATUS_KEY GEN_STATUS_ABSENT GEN_STATUS_UNPARSEABLE lines.
+Proof.
+  induction lines as [|l rest IH]; [reflexivity|].
+  cbn [pid_of_lines pid_of_lines_with]. unfold kv_of_line. change GEN_STATUS_SEP with 58.
+  destruct (split_once 58 l) as [[k v]|]; [|exact IH].
+  change GEN_STATUS_KEY with KEY_PID. destruct (zlist_eqb (strip_quotes k) KEY_PID); [reflexivity|exact IH].
+Qed.
+
+Lemma thread_stack_is_source mems t : thread_stack mems t = gen_thread_stack mems t.
+Proof. unfold thread_stack, gen_thread_stack, or_else_optz. destruct (t_stack t); [reflexivity|]. destruct (mem_at mems (t_sbase t)); reflexivity. Qed.
